@@ -130,6 +130,19 @@ def grid_params(tier):
     }
 
 
+def delims_params(tier):
+    """delimited tokens: literal / comment / directive kinds x body length x a multi-byte character x its byte position in the token x
+    termination (closed, end of line, end of file); positions and lengths straddle the 50-byte prefix quoted in diagnostics and the
+    vector widths of the scanner"""
+    return {
+        "kinds": ["str", "brace", "paren", "line", "dir", "pdir", "ifdir", "mlstr"],
+        "lens": Q(tier, [1, 2, 3, 10, 30, 31, 32, 33, 46, 47, 48, 49, 50, 51, 52, 53, 63, 64, 65, 100, 255, 256, 257], list(range(1, 140)) + [255, 256, 257, 511, 512, 513]),
+        "mbs": ["", "\u00e9", "\u30c6", "\U0001F603"],
+        "positions": Q(tier, [1, 2, 3, 9, 10, 15, 16, 17, 30, 31, 32, 33, 46, 47, 48, 49, 50, 51, 52, 63, 64, 65], list(range(1, 70))),
+        "terms": ["closed", "eol", "eof"],
+    }
+
+
 def c13(tier):
     build(("release",))
     c = Check("C13", tier, "model_checking")
@@ -141,6 +154,11 @@ def c13(tier):
     n = suite_len("grid", gp)
     tasks = split_tasks("grid", gp, n, props, "default", chunks=128, sample_every=Q(tier, 4001, 20011))
     c.explore(tasks, "grid", props, sample_cap=Q(tier, 120, 600))
+    dp = delims_params(tier)
+    tasks = split_tasks("delims", dp, suite_len("delims", dp), props, "default", chunks=32, sample_every=Q(tier, 401, 2003))
+    nn = {"count": Q(tier, 20000, 1000000), "seed": SEED + 5}
+    tasks += split_tasks("dirnest", nn, nn["count"], props, "default", chunks=32, sample_every=Q(tier, 101, 4001))
+    c.explore(tasks, "delimited", props, sample_cap=Q(tier, 300, 1500))
     tasks = seed_tasks("default", sample_every=Q(tier, 7, 3))
     tasks += splice_tasks(Q(tier, 3000, 100000), "default", sample_every=Q(tier, 97, 997))
     tasks += walk_tasks(Q(tier, 20000, 1000000), "default", sample_every=Q(tier, 197, 9973))
@@ -151,6 +169,7 @@ def c13(tier):
     return c.finish(
         rule="(1) every text of <= N code points over the alphabets of MC_Lexer_*.cfg is scanned by the specification (TLC, exhaustive) and the same text by the real scanner: token lists must be equal; "
              "(2) grid cells (word kind x length x bytes remaining x offset x delimiter x tail) with the generator's own expectation for the word's boundaries/kind and the three identifier routines (generic, avx2, dispatched); "
+             "(2b) delimited tokens (literal / comment / directive kind x body length x multi-byte character x its byte position x closed / ends with the line / ends with the file) and random nested expression directives hiding every closer inside strings, comments and nested directives, each with the generator's expectation for the token's boundaries; a logger at the command line's default level is installed so that the diagnostics are built as in a real run; "
              "(3) seeds, splices, soup and random walks: lossless clauses on every input, and agreement with Lexer.tla decided by TLC on the sampled ones. "
              "distinct_nontrivial counts inputs on which a C13 clause was evaluated.",
         assumptions=["the CPU of this machine selects the AVX2 routine; the generic routine is driven directly through the hook",
